@@ -271,7 +271,7 @@ def tokDiff (a b : TState) : String :=
 def devClass (d : String) : String :=
   if d == "-" then "honest" else
   match (d.splitOn ":").getD 1 "" with
-  | "err" | "revert" | "gas" => "fail"
+  | "err" | "revert" | "revertmoved" | "gas" => "fail"
   | "bal+1" | "bal-1" | "balnil" | "balbad" => "bal"
   | "amt+1" | "amt-1" => "amt"
   | "false" | "falsemoved" | "retempty" | "retbad" | "ret2" | "qnil" => "ret"
